@@ -365,6 +365,13 @@ def run_case(case: dict[str, Any]) -> Outcome:
         ok = resp.status in ref["allowed"]
         if not ok and ref["fuzzy"] and resp.status == 200 and (dispatched or req["method"] == "__describe__"):
             ok = True
+        if (not ok and ref["fuzzy"] and route == "exchange" and resp.status == 200 and not dispatched
+                and _body_exception_type(resp) == "TypeError" and any(x.startswith("body:") for x in ref["defects"])):
+            # a damaged body that is still a valid IPC stream but no longer matches the stream's input schema is the
+            # same situation as body=bad_params on this route: stream *data* of the wrong shape, whose rejection the
+            # statement places neither under 400 nor under in-band errors (see reference(): "bad_input_batch?")
+            out.label("exchange_input_batch_rejected_inband")
+            ok = True
         if not ok:
             if resp.status == 200 and not dispatched and resp.get("x-vgi-rpc-error") == "true":
                 # not dispatched, yet reported as an in-band (server-side) error instead of a 4xx
